@@ -21,11 +21,12 @@ LEVEL = "exploration"
 RULE = (
     "networks from 8 classes (3-10 tensors) x random trees, optionally pre-sliced / pre-projected / annealed x "
     "target kind (size | slices | overhead) x value grid x allow_outer in {True, False, 'only'} x 5 objectives x "
-    "temperature in {0, 0.01, 1} x seeds x repeats in {1, 4, 16}; distinct = distinct (network, tree, pre-removed, "
+    "temperature in {0, 0.01, 1} x seeds x repeats in {1, 4, 16}; after each search also best(k in {1,2,3,5,8}) with an "
+    "optional per-call target override; distinct = distinct (network, tree, pre-removed, "
     "options); non-trivial = the search returned >=1 index"
 )
 ASSUMPTIONS = ["the independent cost model is the definition of the sliced tree's figures"]
-REQUIRED_MONITORS = ["prediction_vs_sliced_tree", "prediction_vs_model", "cached_sets_vs_model", "target_honoured", "forbidden_respected", "tree_slice_postcondition", "tree_reslice_postcondition", "presliced_trees"]
+REQUIRED_MONITORS = ["prediction_vs_sliced_tree", "prediction_vs_model", "cached_sets_vs_model", "target_honoured", "forbidden_respected", "tree_slice_postcondition", "tree_reslice_postcondition", "presliced_trees", "best_k_lists", "best_k_vs_model"]
 SHARD_TIMEOUT = {"quick": 400, "thorough": 3600}
 MINIMIZE = ("flops", "size", "write", "combo", "limit")
 
@@ -83,6 +84,48 @@ def check_reslice(rep, net, tree, o, kw, inplace):
         return ("tree_slice", f"tree.slice(reslice=True, allow_outer=False) sliced output index {list(t.sliced_inds)}")
     if not inplace and (list(tree.sliced_inds) != list(src.sliced_inds) or tree.multiplicity != before_mult):
         return ("tree_slice", "tree.slice(reslice=True, inplace=False) modified the tree it was called on")
+    return None
+
+
+def check_best_k(rep, net, tree, sf, o, base_flops, base_mult, r):
+    """every slicing returned by SliceFinder.best(k=..., [per-call targets]) after a search: predictions
+    are real (model), the targets in force for that call hold on the model, forbidden indices absent."""
+    k = r.choice([1, 2, 3, 5, 8])
+    over = {}
+    if r.random() < 0.5:
+        which = r.choice(["target_size", "target_overhead", "target_slices"])
+        if which == "target_size":
+            over[which] = max(1, tree.max_size() // r.choice([1, 2, 4, 16]))
+        elif which == "target_overhead":
+            over[which] = r.choice([1.0, 1.2, 2.0, 8.0])
+        else:
+            over[which] = r.choice([1, 2, 4, 9])
+    try:
+        got = sf.best(k=k, **over)
+    except (RuntimeError, ValueError, KeyError) as e:
+        rep.count("outcome_best_k", f"refused:{type(e).__name__}")
+        return None
+    eff = {t: over.get(t, o.get(t)) for t in ("target_size", "target_overhead", "target_slices")}
+    if len(got) > k:
+        return ("best_k", f"best(k={k}) returned {len(got)} slicings")
+    for rank, (ixs, cost) in enumerate(got):
+        rep.mon("best_k_entries")
+        msg = check_prediction(rep, tree, base_flops, ixs, cost, "best_k_vs_model")
+        if msg:
+            return ("best_k", f"best(k={k}, {over})[{rank}]: {msg}")
+        m = model_for(tree, ixs)
+        if eff["target_size"] is not None and m.max_size() > eff["target_size"]:
+            return ("best_k", f"best(k={k}, {over})[{rank}] sliced {sorted(ixs)}: size {m.max_size()} > target_size {eff['target_size']}")
+        if eff["target_slices"] is not None and m.mult // base_mult < eff["target_slices"]:
+            return ("best_k", f"best(k={k}, {over})[{rank}] sliced {sorted(ixs)}: {m.mult // base_mult} new slices < target_slices {eff['target_slices']}")
+        if eff["target_overhead"] is not None and m.total_flops() > eff["target_overhead"] * base_flops * (1 + 1e-12):
+            return ("best_k", f"best(k={k}, {over})[{rank}] sliced {sorted(ixs)}: overhead {m.total_flops() / base_flops} > target_overhead {eff['target_overhead']}")
+        if o["allow_outer"] is False and any(ix in net.output for ix in ixs):
+            return ("best_k", f"best(k={k})[{rank}]: allow_outer=False but output index in {sorted(ixs)}")
+        if o["allow_outer"] == "only" and any(ix not in net.output for ix in ixs):
+            return ("best_k", f"best(k={k})[{rank}]: allow_outer='only' but inner index in {sorted(ixs)}")
+    if got:
+        rep.mon("best_k_lists")
     return None
 
 
@@ -174,6 +217,12 @@ def execute(rep, case):
         msg = check_prediction(rep, tree, base_flops, ixs, c, "cached_sets_vs_model")
         if msg:
             return ("cached_prediction", msg), True
+
+    # best(k=...) and per-call target overrides: "whenever the slice search returns a set of indices"
+    # also covers the ranked list a caller asks for after the search
+    res = check_best_k(rep, net, tree, sf, o, base_flops, base_mult, rng_for(case["case_seed"], "best_k"))
+    if res:
+        return res, True
 
     # tree.slice post-conditions (also: reslice=True, which first removes the existing slices,
     # and the in-place variant on a copy)
